@@ -107,6 +107,26 @@ func (ma *ModAnalysis) AllocFields(fn *ssa.Function) ([]string, bool) {
 	return sortedKeys(mi.allocVars), mi.allocates || mi.all
 }
 
+// LoopAllocOnly: variables the loop writes only at freshly allocated references.
+func (ma *ModAnalysis) LoopAllocOnly(fr *Frame, li *loopInfo) map[string]bool {
+	mi := newModInfo()
+	for _, b := range fr.fn.Blocks {
+		if !li.body[b.Index] {
+			continue
+		}
+		for _, ins := range b.Instrs {
+			ma.instr(fr.fn, ins, mi)
+		}
+	}
+	res := map[string]bool{}
+	for v := range mi.allocVars {
+		if !mi.vars[v] {
+			res[v] = true
+		}
+	}
+	return res
+}
+
 func (ma *ModAnalysis) LoopMods(fr *Frame, li *loopInfo) ([]string, bool) {
 	mi := newModInfo()
 	for _, b := range fr.fn.Blocks {
@@ -243,6 +263,14 @@ func (ma *ModAnalysis) instr(fn *ssa.Function, ins ssa.Instruction, mi *modInfo)
 		ma.call(fn, &i.Call, mi)
 	case *ssa.Defer:
 		ma.call(fn, &i.Call, mi)
+	case *ssa.Go:
+		if callee, ok := i.Call.Value.(*ssa.Function); ok && callee.Pkg == ex.pkg {
+			if c, ok := ex.cs.Funcs["spawn "+ex.fnKey(callee)]; ok && c.HasMod {
+				for _, v := range ex.staticModVars(c, callee, callee.Signature) {
+					mi.vars[v] = true
+				}
+			}
+		}
 	}
 }
 
@@ -413,6 +441,13 @@ func (ex *Exec) staticModVars(c *Contract, callee *ssa.Function, sig *types.Sign
 		}
 	}()
 	seen := map[string]bool{}
+	for _, evn := range c.Events {
+		if s, ok := ex.spec.ghosts[evn.Label]; ok {
+			ex.regSV(evn.Label, s)
+			seen[evn.Label] = true
+			vars = append(vars, evn.Label)
+		}
+	}
 	for _, mc := range c.Modifies {
 		for _, loc := range ex.resolveModLoc(mc.Expr, env) {
 			if !seen[loc.Var] {
@@ -654,6 +689,9 @@ func (ma *ModAnalysis) LoopObjMods(fr *Frame, li *loopInfo, vars []string) map[s
 				}
 				for _, v := range sortedKeys(sub.allocVars) {
 					get(v).whole = true
+				}
+				for _, evn := range c.Events {
+					get(evn.Label).whole = true
 				}
 			}()
 		}
